@@ -222,17 +222,41 @@ Proof.
   now apply lin_ticks_obs_spec.
 Qed.
 
-(* CountTicks(l) / TicksAtLevel(l) on an ordered domain *)
+(* CountTicks(l) / TicksAtLevel(l) on an ordered domain.  With c the number of multiples of the level's
+   spacing in the widened domain: CountTicks = c exactly up to 10^6 ticks and within 2 + 1e-9 c of
+   min(c, maxInt) beyond (the count is formed in float64 and saturated at maxInt); TicksAtLevel is
+   compared (status 0, within tolerance of the list, as many ticks as counted) whenever c <= 10^6;
+   status 3 = the harness did not call TicksAtLevel: only where c > 10^4 *)
 Definition lin_level_spec (tolv : Q -> Q) (base eb : Z) (mn mx : Q) (lv : levobs) : Prop :=
-  lv_st lv = 0%Z /\ lv_count lv = Z.of_nat (length (lv_ticks lv)) /\
-  exists L, lin_level_list base eb mn mx (lv_level lv) L /\ lv_count lv = Z.of_nat (length L) /\ obs_close tolv L (lv_ticks lv).
+  exists L, lin_level_list base eb mn mx (lv_level lv) L /\
+    let c := Z.of_nat (length L) in
+    ((c <= 1000000)%Z -> lv_count lv = c) /\
+    ((1000000 < c)%Z -> (Z.abs (lv_count lv - Z.min c MAXINT) <= 2 + c / 1000000000)%Z) /\
+    ((lv_st lv = 0%Z /\ (c <= 1000000)%Z /\ obs_close tolv L (lv_ticks lv) /\ lv_count lv = Z.of_nat (length (lv_ticks lv)))
+     \/ (lv_st lv = 3%Z /\ (10000 < c)%Z /\ lv_ticks lv = [])).
+Lemma count_ok_sound c obs : count_ok c obs = true ->
+  ((c <= 1000000)%Z -> obs = c) /\ ((1000000 < c)%Z -> (Z.abs (obs - Z.min c MAXINT) <= 2 + c / 1000000000)%Z).
+Proof.
+  unfold count_ok. cbv zeta. intro H. apply Bool.orb_true_iff in H. destruct H as [H|H].
+  - apply Z.eqb_eq in H. split; intro Hc.
+    + rewrite H. unfold MAXINT. lia.
+    + rewrite H. assert (0 <= c / 1000000000)%Z by (apply Z.div_pos; lia). lia.
+  - apply andb_prop in H. destruct H as [H1 H2]. apply Z.ltb_lt in H1. apply Z.leb_le in H2. split; intro Hc; [lia | exact H2].
+Qed.
 Lemma lin_level_exact_sound tolv base eb mn mx lv : lin_ebase base = Some eb -> mn <= mx ->
   lin_level_exact base eb mn mx tolv lv = true -> lin_level_spec tolv base eb mn mx lv.
 Proof.
-  intros He Ho H. unfold lin_level_exact in H. apply andb_prop in H. destruct H as [H H3]. apply andb_prop in H. destruct H as [H1 H2].
-  apply Z.eqb_eq in H1, H2. apply close_list_sound in H3. rewrite (lin_count_is_length base eb mn mx He Ho) in H2.
-  split; [exact H1|]. split; [rewrite H2; f_equal; symmetry; eapply obs_close_length; exact H3|].
-  exists (lin_ticks_at base eb mn mx false (lv_level lv)). split; [now apply lin_level_list_at|]. auto.
+  intros He Ho H. unfold lin_level_exact in H. cbv zeta in H. apply andb_prop in H. destruct H as [Hc H].
+  apply count_ok_sound in Hc. rewrite (lin_count_is_length base eb mn mx He Ho) in Hc, H.
+  exists (lin_ticks_at base eb mn mx false (lv_level lv)). split; [now apply lin_level_list_at|]. cbv zeta.
+  split; [exact (proj1 Hc)|]. split; [exact (proj2 Hc)|].
+  destruct (lv_st lv =? 3)%Z eqn:S3.
+  - right. apply Z.eqb_eq in S3. apply andb_prop in H. destruct H as [H1 H2]. apply Z.ltb_lt in H1.
+    destruct (lv_ticks lv); [auto | discriminate].
+  - left. apply andb_prop in H. destruct H as [H H3]. apply andb_prop in H. destruct H as [H1 H2].
+    apply Z.eqb_eq in H1. apply Z.leb_le in H2. apply close_list_sound in H3.
+    split; [exact H1|]. split; [exact H2|]. split; [exact H3|].
+    rewrite (proj1 Hc H2). f_equal. symmetry. eapply obs_close_length. exact H3.
 Qed.
 
 (* ---------- Nice ---------- *)
